@@ -292,10 +292,16 @@ class Settings(MutableMapping):
         del self._settings[key]
 
     def __iter__(self):
-        return self._settings.__iter__()
+        # A setting that has been set but never acknowledged has no current
+        # value yet: looking it up raises KeyError, so it must not be listed as
+        # a key either, or items() and friends raise KeyError half way through.
+        return (
+            key for key, values in self._settings.items()
+            if values[0] is not None
+        )
 
     def __len__(self):
-        return len(self._settings)
+        return sum(1 for _ in self)
 
     def __eq__(self, other):
         if isinstance(other, Settings):
